@@ -769,7 +769,7 @@ def run(ctx, res):
     res.guard(window_details, prog, res, f)
     res.guard(commit_own, prog, res, f)
     from .. import runtimerules as RR_
-    res.guard(RR_.rule_drain_after_stop, prog, res, "video_filter_thread", {"process_data"})
+    res.guard(RR_.rule_drain_after_stop, prog, res, "video_filter_thread", {"process_data"}, passes=2)
     res.require_min("R-DRAIN", 1)
     res.guard(kernels, prog, res)
     n = pair_reader(prog, res, f)
